@@ -48,7 +48,10 @@ MPS_ALPHA = ['train_nas_only', 'train_net_only', 'train_net_and_nas',
              'disable_sampling=T', 'disable_sampling=F', 'fwd_bwd']
 SN_ALPHA = ['train_nas_only', 'train_net_only', 'train_net_and_nas', 'temperature=0.5',
             'temperature=3.0', 'hard=T', 'hard=F', 'fwd_bwd']
-MODELS = {'pit': PIT_ALPHA, 'mps-layer': MPS_ALPHA, 'mps-channel': MPS_ALPHA, 'supernet': SN_ALPHA}
+# 'pit-trailing': the same TCN whose output passes through an activation after the last layer (the
+# head is output-connected although it is not the node feeding the output)
+MODELS = {'pit': PIT_ALPHA, 'pit-trailing': PIT_ALPHA, 'mps-layer': MPS_ALPHA,
+          'mps-channel': MPS_ALPHA, 'supernet': SN_ALPHA}
 
 
 def cases(tier, seed):
@@ -67,7 +70,7 @@ def worker_setup(ctx):
 # ------------------------------------------------------------------------------------------------
 # model construction (fresh per replay)
 # ------------------------------------------------------------------------------------------------
-def pit_program():
+def pit_program(trailing=False):
     ops = [
         {'op': 'conv', 'name': 'c1', 'src': 'x0', 'out': 'a', 'cin': 2, 'cout': 4, 'k': 3, 'd': 1,
          's': 2, 'bias': True, 'pad': 'causal', 'dw': False},
@@ -85,14 +88,18 @@ def pit_program():
         {'op': 'flat', 'kind': 'meth', 'src': 'g', 'out': 'f'},
         {'op': 'lin', 'name': 'fc', 'src': 'f', 'out': 'o', 'fin': 3, 'fout': 2, 'bias': True},
     ]
-    return {'family': '1d', 'inputs': [[2, 12]], 'ops': ops, 'out': 'o', 'excluded': [],
+    out = 'o'
+    if trailing:
+        ops.append({'op': 'act', 'kind': 'sigmoid', 'src': 'o', 'out': 'o2'})
+        out = 'o2'
+    return {'family': '1d', 'inputs': [[2, 12]], 'ops': ops, 'out': out, 'excluded': [],
             'features': ['tcn'], 'traits': []}
 
 
 def build_model(kind):
     from plinio import cost as pc
-    if kind == 'pit':
-        prog = pit_program()
+    if kind.startswith('pit'):
+        prog = pit_program(trailing=kind == 'pit-trailing')
         model, nas, xs = pitlib.convert_pit(prog, 1, cost=pc.params, train_mode=True)
         x = pitgen.example_inputs(prog, 2, 3)
         return nas, x, prog
@@ -124,7 +131,7 @@ class RTrain:
         self.kind = kind
         self.nas_ids, self.frozen_ids, self.group = set(), set(), {}
         self.expect = {}
-        if kind == 'pit':
+        if kind.startswith('pit'):
             from plinio.methods.pit.nn import PITConv1d
             _, must_full = pitlib.width_groups(prog)
             strided = {op['name'] for op in prog['ops'] if op['op'] == 'conv' and op['s'] != 1}
@@ -215,7 +222,7 @@ def abstract_state(kind, nas):
     rg = tuple(bool(p.requires_grad) for p in nas.parameters())
     qs = tuple(tuple(sorted(sampler_state(q).items())) for q in quantizers(kind, nas))
     flags = ()
-    if kind == 'pit':
+    if kind.startswith('pit'):
         flags = (nas.train_features, nas.train_rf, nas.train_dilation, nas.discrete_cost)
     return (rg, qs, flags)
 
